@@ -20,6 +20,20 @@ static Case gen_C12(const GenCtx &ctx) {
   const Op *o = g::wpick(w);
   Case c;
   c.sets("prop", "C12");
+  if (g::coin(1, 10)) {
+    // row counts that are exact multiples of the cache-derived block sizes of *other* configurations
+    // (sqrt(4*L3)/2 for L3 = 64K .. >= 4M: 256, 362, 512, 724, 1024, 1448, 2048) with a thin right factor: the cubic
+    // kernels process whole blocks of that many rows and then a remainder
+    int bs = g::pick<int>({256, 362, 512, 724, 1024, 1448, 2048});
+    int m = bs * g::rng(1, bs <= 512 ? 3 : 2) + g::pick<int>({0, 0, 0, 1, -1});
+    std::string r = g::pick<std::string>({"mzd_mul", "mzd_addmul", "mzd_mul_m4rm", "mzd_addmul_m4rm", "mzd_mul_naive", "mzd_addmul_naive"});
+    c.sets("op", r).set("m", m).set("l", g::rng(1, 150)).set("n", g::rng(1, 53));
+    if (r.find("m4rm") != std::string::npos) c.set("k", g::rng(0, 8));
+    else if (r.find("naive") == std::string::npos) c.set("cutoff", g::pick<int>({0, 64, 256}));
+    c.sets("A.pat", "dense").setu("A.seed", g::seed()).sets("B.pat", "dense").setu("B.seed", g::seed());
+    c.sets("C.dst", "given").set("C.jkind", 2).setu("C.jseed", g::seed());
+    return c;
+  }
   o->gen(ctx, c, 0);
   return c;
 }
